@@ -364,6 +364,12 @@ func checkC13(c *Case, s *Stats) error {
 	if c.Scrib&2 == 2 {
 		specs[0] = [3]Tri{1, 1, 1}
 	}
+	if c.Scrib&4 == 4 {
+		// Complete is documented to imply both prefix options, whatever they say explicitly
+		specs[3] = [][3]Tri{{1, 1, 2}, {1, 0, 2}, {0, 1, 2}, {2, 1, 2}}[(c.Scrib>>3)%4]
+		specs[1] = [3]Tri{2, 1, 1}
+		specs[2] = [3]Tri{1, 2, 0}
+	}
 	for i := range ts {
 		ts[i].name = names[i]
 		ts[i].st, err = mk(specs[i][0], specs[i][1], specs[i][2])
